@@ -676,7 +676,7 @@ func (w *world) guards(q *query, f form, chain string) {
 	if orderByInner(q) {
 		g["join:order-by-inner-table-column"]++
 	}
-	if nonEquiOn(q) && (f.joinCond == "hash" || f.joinCond == "flip") {
+	if nonEquiOn(q) && (f.joinCond == "hash" || f.joinCond == "flip") && !f.derived2 {
 		g["join:hash-join-with-correlated-non-equi-conjunct"]++
 	}
 	if explicitNulls(q) && !strings.Contains(chain, "sort") && strings.Contains(chain, "raw[") && !strings.Contains(chain, "raw[pk") {
@@ -819,7 +819,7 @@ func onNextColumn(q *query) bool {
 // Everything else: query class : symptom : form : plan class : state.
 func (w *world) diagnose(symptom, chain, otherChain, why string, f form, q *query) string {
 	sec := usesSecondary(chain) || usesSecondary(otherChain)
-	hashForm := f.joinCond == "hash" || f.joinCond == "flip" || f.joinCond == "unq"
+	hashForm := (f.joinCond == "hash" || f.joinCond == "flip") && !f.derived2
 	switch {
 	case q.Tbl != "t3" && w.txTouches(q) && sec && len(w.h.TxRemoved) > 0:
 		return "sqltx:uidx_no_own_removal:in-tx-index-scan:" + queryClass(q)
@@ -829,12 +829,12 @@ func (w *world) diagnose(symptom, chain, otherChain, why string, f form, q *quer
 		return "sql.select:topN-sort-before-distinct:" + symptom + ":" + stateClass(w.state)
 	case strings.Contains(why, "values are not comparable") && len(q.Where) > 0 && hasILit(q.Where[0]):
 		return "sql.compare:null-float-vs-integer-literal-not-comparable:" + stateClass(w.state)
+	case orderByInner(q) && symptom == "order" && !strings.Contains(chain, "sort"):
+		return "sql.join:order-by-inner-column-taken-for-outer-index-column:" + stateClass(w.state)
 	case nonEquiOn(q) && hashForm && strings.Contains(chain, "joint") && !strings.HasPrefix(symptom, "error"):
 		return "sql.join:hash-join-correlated-non-equi-conjunct:" + q.Join[0].Type + ":" + symptom
 	case f.joinCond == "unq" && strings.Contains(chain, "joint") && !strings.HasPrefix(symptom, "error"):
 		return "sql.join:hash-join-unqualified-inner-column:" + queryClass(q) + ":" + symptom
-	case orderByInner(q) && symptom == "order" && !strings.Contains(chain, "sort"):
-		return "sql.join:order-by-inner-column-taken-for-outer-index-column:" + stateClass(w.state)
 	case explicitNulls(q) && symptom == "order" && !strings.Contains(chain, "sort"):
 		return "sql.select:nulls-first-last-ignored-by-index-order:" + stateClass(w.state)
 	}
